@@ -427,6 +427,8 @@ def curated():
     A(('arr', string, 3)); A(('arr', P('double'), 1)); A(('carr', string, 3)); A(('arr', ('pair', u8, string), 3))
     A(('vec', ('vec', ('vec', i32))))
     A(('vec', ('arr', u16, 3)))
+    # zero-length std::array (a legal type: BIN / ARY with length 0)
+    A(('arr', u8, 0)); A(('arr', u32, 0)); A(('arr', string, 0)); A(p.struct([('z', ('arr', u16, 0)), ('n', u8), ('e', ('arr', ('pair', u8, u8), 0))], name='StZeroArr'))
     # wide strings FOLLOWED by further members (the string decoder ensures characters and reads bytes)
     A(p.struct([('s', ('str', 'char16_t')), ('n', u64), ('v', ('vec', u16))], name='StWide16'))
     A(('pair', ('str', 'char32_t'), u64)); A(('tup', [('str', 'wchar_t'), i32, ('str', 'char16_t'), u8]))
